@@ -1,4 +1,5 @@
 import WtfModel.Model.Search
+import WtfModel.Model.NormQ
 import Driver.Util
 
 /-!
@@ -112,6 +113,9 @@ def step (d : DS) (l : String) : DS × String :=
                               platforms := pls, noCross := boolOf nc }
       (d, fmtResults (search (tuning d) d.db.toList q o))
     | _, _, _, _, _, _, _ => (d, "bad-op")
+  | ["normq", h] => match Bytes.ofHex h with
+    | some b => (d, "nq " ++ Bytes.toHex (NormQ.normQ d.ri b))
+    | none => (d, "bad-op")
   | ["tokens", h] => match Bytes.ofHex h with
     | some b => (d, (Text.tokenize b).foldl (fun acc t => acc ++ " " ++ Bytes.toHex t) "tok")
     | none => (d, "bad-op")
